@@ -297,6 +297,10 @@ def rule_policy_order(ctx, p, cfg, rid="R4"):
             gate = [(sb, si, al) for sb, si, al in conds if _is_trigger_bool(si.discr)]
             okg = bool(gate) and all({si.label(v) for v, _ in al} == {True} for sb, si, al in gate)
             r.require(okg, "%s-only-on-trigger-true" % nm, fn=f, site=c.at, detail="reachable only from the true edge of the trigger's Ok payload")
+            # ... and on nothing else: a second condition would veto rotations the trigger asked for
+            extra = [(sb, si, al) for sb, si, al in conds if not _is_trigger_bool(si.discr) and strip(si.discr)[0] != "discr"]
+            r.require(not extra, "%s-whenever-triggered" % nm, fn=f, site=c.at, detail="no condition other than the trigger's answer guards it",
+                      fail_detail="the rotation the trigger asked for is additionally guarded by %s: a triggered roll can be skipped (and, for a once-only trigger, is never made up)" % [show(si.discr, 4) for sb, si, al in extra])
         # on false: neither reachable, returns Ok
         for b in f.blocks:
             if b["term"]["k"] == "switch":
@@ -349,6 +353,26 @@ def rule_reopen(ctx, p, cfg, rid="R5"):
             r.require(any(x == ("param", 2) for x in walk(slot)), "gate-on-the-slot-argument", fn=g, detail="tested value: %s" % show(slot, 3))
         pth = deep_strip(op.arg(1))
         r.require(pth == ("field", ("param", 1), ro["path_field"]), "opens-own-path", fn=g, site=op.at, detail="opened path: %s" % show(pth))
+        # a reopened file that is not truncated must be written at its end: append(x) or truncate(x) holds for every flag valuation
+        import itertools
+        oo = common.open_options(g, op)
+        ae, te = oo.get("append"), oo.get("truncate")
+        exprs = [e[0] for e in (ae, te) if e]
+        atoms = []
+        for e in exprs:
+            for a in q.bool_atoms(e):
+                if a not in atoms:
+                    atoms.append(a)
+        bad = []
+        for vals in itertools.product([False, True], repeat=len(atoms)):
+            env = dict(zip(atoms, vals))
+            F = ("const", "bool", False)
+            pairs = q.eval_bool_joint([ae[0] if ae else F, te[0] if te else F], env)
+            if any(a is None or (not a and not t) for a, t in pairs):
+                bad.append({show(k, 3): v for k, v in env.items()})
+        r.require(bool(ae) and not bad, "appends-unless-truncating", fn=g, site=op.at,
+                  detail="append(%s) / truncate(%s): one of them is true for every valuation" % (show(ae[0], 4) if ae else None, show(te[0], 4) if te else None),
+                  fail_detail="the active file can be opened with neither append nor truncate (%s): writes start at offset 0 and overwrite the records it still holds" % bad[:2])
         # Some(LogWriter{..}) stored into the slot on the open path, before the Ok return
         slot_ty = "core::option::Option<%s>" % ro["logwriter"]
         stores = []
@@ -373,3 +397,48 @@ def rule_reopen(ctx, p, cfg, rid="R5"):
         okret = bool(ret) and all(any(x == ("param", 2) for x in walk(e)) for e in ret)
         r.require(okret, "returns-slot-content", fn=g, detail="Ok value borrows from the slot argument: %s" % [show(e, 4) for e in ret])
         r.require(common.result_is_checked(g, op), "open-error-propagated", fn=g, site=op.at, detail="open's Result is propagated")
+
+
+WRITE_FAMILY = ("write", "write_all", "write_vectored", "write_fmt", "write_all_vectored")
+
+
+def rule_writer_handle(ctx, p, cfg, rid="R7"):
+    """All bytes reach the active file through one buffered handle, in order, and are counted: the LogWriter's file
+    field is touched only by its constructor (the opener) and by its io::Write impl, and there only as the receiver
+    of a write-family call or of flush -- never unwrapped (get_mut/get_ref/into_inner/..), cloned or handed out."""
+    with ctx.rule(rid, "single buffered handle", cfg) as r:
+        ro = roles(p)
+        lw, filef = ro["logwriter"], ro["file_field"]
+        impl = [i for i in p.impls if i.get("trait") == "std::io::Write" and i.get("self_ty") == lw]
+        if len(impl) != 1:
+            raise AnchorMissing("io::Write impl for %s not found" % lw)
+        impl_fns = set()
+        for m in impl[0]["methods"]:
+            if m in p.fns:
+                impl_fns.add(m)
+                for c in p.closures_of(m):
+                    impl_fns.add(c.path)
+        allowed = impl_fns | {ro["get_writer"].path}
+        derive = {f.path for f in p.field_reads(lw, filef) if "Derive" in (f.d.get("exp") or "") or f.d.get("impl_trait") in ("core::fmt::Debug",)}
+        users = sorted({f.path for f in p.field_reads(lw, filef)} - derive)
+        r.require(set(users) <= allowed, "file-field-users", detail="functions touching %s.%s: %s" % (lw, filef, users),
+                  fail_detail="%s.%s is used outside the opener and the io::Write impl: %s" % (lw, filef, sorted(set(users) - allowed)))
+        n = 0
+        for path in sorted(impl_fns):
+            f = p.fn(path)
+            for c in f.calls():
+                touching = [a for a in c.arg_exprs() if any(x[0] == "field" and x[2] == filef for x in walk(a))]
+                if not touching:
+                    continue
+                if c.callee in ("core::ops::try_trait::Try::branch", "core::ops::try_trait::FromResidual::from_residual") or (c.callee or "").startswith("core::result::Result::"):
+                    continue
+                n += 1
+                nm = (c.decl or "").rsplit("::", 1)[-1]
+                recv = deep_strip(c.arg(0))
+                direct = recv[0] == "field" and recv[2] == filef and not any(x[0] == "call" for x in walk(recv))
+                okc = (c.decl or "").startswith("std::io::Write::") and (nm in WRITE_FAMILY or nm == "flush") and direct
+                r.require(okc, "use:%s/%s" % (path.rsplit("::", 1)[-1], common.role(c)), fn=f, site=c.at,
+                          detail="%s on the buffered file itself" % nm,
+                          fail_detail="%s reaches the file through %s(%s) instead of a write/flush on the buffered handle: bytes can overtake what is still buffered or escape the size counter" % (
+                              path.rsplit("::", 1)[-1], c.callee, show(recv, 4)))
+        r.floor("uses-of-the-handle", n, 2)
